@@ -329,7 +329,7 @@ def judge_run(case, tol, stop):
             side = 'too_large' if vn > band['v_hi'] else 'too_small'
             width = max(band['v_hi'] - band['v_lo'], sv)
             off = (vn - band['v_hi']) if vn > band['v_hi'] else (band['v_lo'] - vn)
-            bad('volume_band', {'side': side, 'layout': multi}, excess_over_bandwidth=off / width,
+            bad('volume_band', {'layout': multi}, side=side, excess_over_bandwidth=off / width,
                 volume=vn, maxvol=vol, band=[band['v_lo'], band['v_hi']], lam=[band['lam_lo'], band['lam_hi']],
                 **where)
         elif not inband:      # (a volume outside its band already implies a component outside its band)
@@ -354,6 +354,8 @@ def judge_run(case, tol, stop):
     if kind == 'inv' and exc is None and shapes_ok and flat:
         if stop != 'off':
             tags.add('default_stop')
+        elif V:
+            tags.add('convergence_not_judged_after_iteration_violation')
         else:
             opt = oc.analytic_optimum_inv(c, xmin, xmax, vol, tol)
             if opt is None:
@@ -390,7 +392,7 @@ def execute(case):
     for tol, stop in case['runs']:
         r = judge_run(case, tol, stop)
         states += max(r['iterations'], 1)
-        trans += r['updates']
+        trans += max(r['updates'], 1)      # a run that raised is still one judged operation
         checks += r['checks']
         tags |= r['tags']
         obs += r['observed_only']
